@@ -19,7 +19,7 @@ BOUNDS = {
 OUTSIDE = "float seeds (CrossHair cannot confirm conditions over floats); random_unitary / random_permutation (one-line delegations to scipy/numpy RNGs - nothing to encode); float occupations; aliasing of the list handed to State() by the caller; longer lists"
 STUBS = []
 
-_CONDS = ["_eq_iff", "_concat", "_merge", "_slice_and_copy", "_immutable", "_annotated", "_annotated_ops", "_herald_roundtrip", "_fock_basis", "_seed_int", "_seed_bool_none"]
+_CONDS = ["_eq_iff", "_concat", "_merge", "_slice_and_copy", "_immutable", "_annotated", "_annotated_ops", "_annotated_immutable", "_herald_roundtrip", "_fock_basis", "_seed_int", "_seed_bool_none"]
 
 
 def xh_conditions(tier):
@@ -32,14 +32,22 @@ def h_db(ctx, direction):
     if direction == "db->dec->db":
         x = ctx.real("x")
         d = conversion.db_loss_to_decimal(x)
-        back = conversion.decimal_to_db_loss(d) if True else None
+        try:
+            back = conversion.decimal_to_db_loss(d)
+        except ValueError as e:
+            ctx.fail("every-db-value-converts-back", repr(e)[:80])
+            return
         want = -x if (x < 0) else x
         ctx.check_eq(back, want, "db-decimal-db-roundtrip-returns-abs")
         ctx.check((d >= 0) & (d < 1) if ctx.symbolic else (0 <= d < 1), "decimal-loss-in-range")
     else:
         l = ctx.real("l", 0, None)
         ctx.assume(l < 1)
-        db = conversion.decimal_to_db_loss(l)
+        try:
+            db = conversion.decimal_to_db_loss(l)
+        except ValueError as e:
+            ctx.fail("every-loss-in-[0,1)-is-accepted", repr(e)[:80])
+            return
         ctx.check(db >= 0, "db-loss-positive")
         back = conversion.db_loss_to_decimal(db)
         ctx.check_eq(back, l, "decimal-db-decimal-roundtrip")
